@@ -583,8 +583,10 @@ def sqlLoop (db : SqlDb) (queryMh : MH) : JS → List (Nat × Nat) → JS × Lis
       (js', ⟨id, r⟩ :: hits)
     else sqlLoop db queryMh js rest
 
-/-- `SqliteIndex.find(search_fn, query)` -/
-def findSqlite (db : SqlDb) (js : JS) (q : MH) : Except SErr (JS × List Hit) :=
+/-- `SqliteIndex.find(search_fn, query)`; `early` = the source has the early return
+    `if not query_mh: return` after the query has been downsampled (without it,
+    `_get_matching_sketches` takes `max()` of no hashes and raises `ValueError`) -/
+def findSqliteV (early : Bool) (db : SqlDb) (js : JS) (q : MH) : Except SErr (JS × List Hit) :=
   match js.checkIsCompatible q with
   | .error e => .error e
   | .ok _ =>
@@ -596,8 +598,14 @@ def findSqlite (db : SqlDb) (js : JS) (q : MH) : Except SErr (JS × List Hit) :=
       match q' with
       | .error e => .error e
       | .ok queryMh =>
-        match db.matchingSketches queryMh.mins queryMh.maxHash with
-        | .error e => .error e
-        | .ok xx => .ok (sqlLoop db queryMh js xx)
+        if early && queryMh.mins.isEmpty then .ok (js, [])
+        else
+          match db.matchingSketches queryMh.mins queryMh.maxHash with
+          | .error e => .error e
+          | .ok xx => .ok (sqlLoop db queryMh js xx)
+
+/-- the variant the current source has (read by the translator) -/
+def findSqlite (db : SqlDb) (js : JS) (q : MH) : Except SErr (JS × List Hit) :=
+  findSqliteV Gen.sqlEmptyQueryReturnsNothing db js q
 
 end Sm.Search
